@@ -45,6 +45,10 @@ func extractOf(v ssa.Value, idx int, pkg, name string) *ssa.Call {
 
 // derivesFrom: does value v depend (through calls, phis, binops, conversions,
 // loads) on a value satisfying pred?  Bounded depth.
+// ssaBind: parameters of module helpers bound to the arguments of the calls that derivesFrom followed
+// into them (a may-binding: every call site seen contributes).
+var ssaBind = map[*ssa.Parameter][]ssa.Value{}
+
 func derivesFrom(v ssa.Value, pred func(ssa.Value) bool, depth int, seen map[ssa.Value]bool) bool {
 	if v == nil || depth < 0 || seen[v] {
 		return false
@@ -54,10 +58,44 @@ func derivesFrom(v ssa.Value, pred func(ssa.Value) bool, depth int, seen map[ssa
 		return true
 	}
 	switch x := v.(type) {
+	case *ssa.Parameter:
+		// inside a helper the walk entered through a call: the parameter is what the caller passed
+		for _, a := range ssaBind[x] {
+			if derivesFrom(a, pred, depth-1, seen) {
+				return true
+			}
+		}
 	case *ssa.Call:
 		for _, a := range x.Call.Args {
 			if derivesFrom(a, pred, depth-1, seen) {
 				return true
+			}
+		}
+		// a helper of the module: the value is what the helper returns, computed from its parameters
+		if f := x.Call.StaticCallee(); f != nil && len(f.Blocks) > 0 && f.Pkg != nil && strings.HasPrefix(f.Pkg.Pkg.Path(), modPath) && depth > 1 {
+			for i, p := range f.Params {
+				if i < len(x.Call.Args) {
+					dup := false
+					for _, b := range ssaBind[p] {
+						if b == x.Call.Args[i] {
+							dup = true
+						}
+					}
+					if !dup {
+						ssaBind[p] = append(ssaBind[p], x.Call.Args[i])
+					}
+				}
+			}
+			for _, b := range f.Blocks {
+				for _, in := range b.Instrs {
+					if r, ok := in.(*ssa.Return); ok {
+						for _, rv := range r.Results {
+							if derivesFrom(rv, pred, depth-1, seen) {
+								return true
+							}
+						}
+					}
+				}
 			}
 		}
 	case *ssa.Phi:
@@ -195,7 +233,7 @@ func fsNormalised(v ssa.Value, depth int) bool {
 		return cl != nil && staticCalleeIs(&cl.Call, "path/filepath", "Clean")
 	}
 	f := tp.Call.StaticCallee()
-	if depth <= 0 || f == nil || len(f.Blocks) == 0 || f.Pkg == nil || !strings.HasPrefix(f.Pkg.Pkg.Path(), modPath) || len(f.Params) != 1 {
+	if depth <= 0 || f == nil || len(f.Blocks) == 0 || f.Pkg == nil || !strings.HasPrefix(f.Pkg.Pkg.Path(), modPath) || len(f.Params) < 1 {
 		return false
 	}
 	nret := 0
@@ -209,8 +247,15 @@ func fsNormalised(v ssa.Value, depth int) bool {
 			if len(r.Results) != 1 || !fsNormalised(r.Results[0], depth-1) {
 				return false
 			}
-			// the cleaned operand must be the helper's parameter
-			if !derivesFrom(r.Results[0], func(x ssa.Value) bool { return x == ssa.Value(f.Params[0]) }, 6, map[ssa.Value]bool{}) {
+			// the cleaned operand must come from one of the helper's parameters
+			if !derivesFrom(r.Results[0], func(x ssa.Value) bool {
+				for _, fp := range f.Params {
+					if x == ssa.Value(fp) {
+						return true
+					}
+				}
+				return false
+			}, 8, map[ssa.Value]bool{}) {
 				return false
 			}
 		}
